@@ -33,6 +33,13 @@ CLAIMED["C06"] = dict(
          "consistency after an in-place rescale are unsat queries per output element.",
     ref="DESIGN.md section 2 / C06",
 )
+CLAIMED["C12"] = dict(
+    text="Region/Mesh/Field.rotate90 run symbolically (free corners, free reference point, free cell values, symbolic validity "
+         "bits) for every ordered axis pair, k in a bounded range incl. negatives, copy and in-place forms, permuted / partially "
+         "mapped component-to-axis mappings and subregions; oracle: exact quarter-turn matrix Q for k mod 4, g(R+Q(p-R)) = Q f(p) "
+         "cell by cell through an index map that the same run validates against the rotated geometry.",
+    ref="DESIGN.md section 2 / C12",
+)
 PENDING_REASON = "check not built yet in this round (planned: DESIGN.md section 2); not claimed until it runs green"
 NA = {}
 
